@@ -1310,6 +1310,7 @@ package ecs
 //@   requires hasRelation && target.id != 0 ==> int(target.id) < len(w.entityPool.entities)
 //@   requires bitSetCovers(&w.targetEntities, len(w.entities))
 //@   requires entAlive(w, entity) ==> int(w.entities[int(entity.id)].arch.archetypeAccess.RelationTarget.id) < len(w.entities)
+//@   requires entAlive(w, entity) ==> idsValid(w.entities[int(entity.id)].arch.node.nodeData.Ids) && validID(w.entities[int(entity.id)].arch.archetypeAccess.RelationComponent.id)
 //@   requires entAlive(w, entity) && w.entities[int(entity.id)].arch.node.HasRelation ==> nodeFreeInv(w.entities[int(entity.id)].arch.node) && tableSlotOK(w.entities[int(entity.id)].arch)
 //@   flag may_panic noframe
 //@   lockfast isLocked(w)
@@ -1621,6 +1622,7 @@ package ecs
 //@   requires hasRelation && target.id != 0 ==> int(target.id) < len(w.entityPool.entities)
 //@   requires bitSetCovers(&w.targetEntities, len(w.entities))
 //@   requires entAlive(w, entity) ==> int(w.entities[int(entity.id)].arch.archetypeAccess.RelationTarget.id) < len(w.entities)
+//@   requires entAlive(w, entity) ==> idsValid(w.entities[int(entity.id)].arch.node.nodeData.Ids) && validID(w.entities[int(entity.id)].arch.archetypeAccess.RelationComponent.id)
 //@   requires entAlive(w, entity) && w.entities[int(entity.id)].arch.node.HasRelation ==> nodeFreeInv(w.entities[int(entity.id)].arch.node) && tableSlotOK(w.entities[int(entity.id)].arch)
 //@   flag nosafe may_panic panic_clean
 //@   lockfast isLocked(w)
